@@ -108,6 +108,23 @@ class ClassInfo:
                 alias.name = n.targets[0].id
                 self.methods[alias.name] = alias
                 del self.class_attrs[n.targets[0].id]
+        # name = functools.partialmethod(method, a, k=v): a method that calls `method` with these arguments first
+        for n in node.body:
+            if isinstance(n, ast.Assign) and len(n.targets) == 1 and isinstance(n.targets[0], ast.Name) and \
+                    isinstance(n.value, ast.Call) and ast.unparse(n.value.func) in ("functools.partialmethod", "partialmethod") and \
+                    n.value.args and isinstance(n.value.args[0], ast.Name) and n.value.args[0].id in self.methods and \
+                    not any(isinstance(a, ast.Starred) for a in n.value.args) and all(k.arg for k in n.value.keywords) and \
+                    not self.methods[n.value.args[0].id].decorator_list:
+                fixed = [ast.unparse(a) for a in n.value.args[1:]] + [f"{k.arg}={ast.unparse(k.value)}" for k in n.value.keywords]
+                src = (f"def {n.targets[0].id}(self, *args, **kwargs):\n"
+                       f"    return self.{n.value.args[0].id}({', '.join(fixed + ['*args', '**kwargs'])})\n")
+                fn = ast.parse(src).body[0]
+                for sub in ast.walk(fn):
+                    if isinstance(sub, (ast.expr, ast.stmt, ast.arg, ast.keyword)):
+                        ast.copy_location(sub, n)
+                        sub.end_lineno = getattr(n, "end_lineno", n.lineno)
+                self.methods[fn.name] = fn
+                self.class_attrs.pop(fn.name, None)
         # name = property(getter) / property(fget=getter): the getter is reachable under the public name
         for n in node.body:
             if isinstance(n, ast.Assign) and len(n.targets) == 1 and isinstance(n.targets[0], ast.Name) and \
@@ -201,6 +218,8 @@ class Program:
             for c in m.classes.values():
                 c.bases = [self.resolve_class(m, b) or self._base_name(m, b) for b in c.node.bases]
         self.class_hooks = {}           # class -> why its class-creation hook is not followed (methods are then undecided)
+        self.registry_attrs = set()     # class-level containers filled by __init_subclass__ hooks
+        self._synthesise_dataclass_inits()
         self._apply_class_hooks()
         self._dynamic_features()
         self._summaries = {}
@@ -211,6 +230,11 @@ class Program:
         self.list_models = {}       # list object -> (loop id, iterated term, initial items, value appended per iteration)
         self.genobjs = {}           # site -> (call node, bound arguments) of generator objects created but not yet run
         self.closures = {}          # site -> nested function definition + defining scope
+        self.closure_cells = {}     # site -> (`nonlocal` names of the closure, the summariser that defines it)
+        self.cell_ids = {}
+        self.init_only = {}         # (class, attribute) -> assigned in constructors only
+        self.ctor_callables = {}    # (class, field) -> the partial the constructor leaves there, over the object's state
+        self.queue_lists = set()    # creation sites of local lists of pending calls whose appends are followed as values
         self.field_classes = {}     # (root class, field) -> class of the object the constructor leaves there
         self._instance_attrs = {}
         self._dict_record_ok = {}
@@ -225,6 +249,99 @@ class Program:
         self.funcrefs = {}          # key -> (class, definition, decorator level): what a decorator receives
         self.wrappers = {}          # key -> closure a user decorator returned for a definition
 
+    @staticmethod
+    def _dataclass_options(K):
+        """Keyword options of the @dataclass decorator of the class, or None if it is not a dataclass."""
+        for d in K.node.decorator_list:
+            if ast.unparse(d.func if isinstance(d, ast.Call) else d) in ("dataclass", "dataclasses.dataclass"):
+                return {k.arg: k.value for k in d.keywords} if isinstance(d, ast.Call) else {}
+        return None
+
+    def _synthesise_dataclass_inits(self):
+        """A mutable @dataclass gets the `__init__` the decorator would write: one parameter per field (those of base
+        dataclasses first; `field(init=False)` ones excepted), each stored on the instance, defaults and default
+        factories applied, then `__post_init__` with the InitVar arguments.  The constructor is then analysed like
+        a hand-written one."""
+        for m in list(self.modules.values()):
+            for K in list(m.classes.values()):
+                opts = self._dataclass_options(K)
+                if opts is None or K.record_fields is not None or "__init__" in K.methods:
+                    continue
+                if any(isinstance(v, ast.Constant) and v.value is False for k, v in opts.items() if k == "init"):
+                    continue
+                fields = {}
+                ok = True
+                for B in reversed(self.mro(K)):
+                    if self._dataclass_options(B) is None:
+                        continue
+                    for n in B.node.body:
+                        if not (isinstance(n, ast.AnnAssign) and isinstance(n.target, ast.Name)):
+                            continue
+                        ann = ast.unparse(n.annotation)
+                        if ann.split("[")[0] in ("ClassVar", "typing.ClassVar"):
+                            continue
+                        if n.value is not None and not isinstance(n.value, ast.Constant) and B.module is not K.module:
+                            ok = False          # the default is an expression of another module
+                        fields[n.target.id] = (ann, n.value)
+                if not ok:
+                    continue
+                params, body, initvars = [], [], []
+                seen_default = False
+                kw_only = False
+                for name, (ann, value) in fields.items():
+                    if ann.split("[")[0] in ("KW_ONLY", "dataclasses.KW_ONLY"):
+                        kw_only = True
+                        continue
+                    initvar = ann.split("[")[0] in ("InitVar", "dataclasses.InitVar")
+                    init, default, factory = True, None, None
+                    if isinstance(value, ast.Call) and ast.unparse(value.func) in ("field", "dataclasses.field"):
+                        for k in value.keywords:
+                            if k.arg == "init" and isinstance(k.value, ast.Constant):
+                                init = bool(k.value.value)
+                            elif k.arg == "default":
+                                default = ast.unparse(k.value)
+                            elif k.arg == "default_factory":
+                                factory = ast.unparse(k.value)
+                    elif value is not None:
+                        default = ast.unparse(value)
+                    if init:
+                        if default is not None:
+                            params.append(f"{name}={default}")
+                        elif factory is not None:
+                            params.append(f"{name}=__dataclass_MISSING__")
+                        else:
+                            if seen_default and not kw_only:
+                                ok = False
+                            params.append(name)
+                        seen_default = seen_default or default is not None or factory is not None
+                        if initvar:
+                            initvars.append(name)
+                        elif factory is not None:
+                            body.append(f"self.{name} = ({factory})() if {name} is __dataclass_MISSING__ else {name}")
+                        else:
+                            body.append(f"self.{name} = {name}")
+                    elif default is not None:
+                        body.append(f"self.{name} = {default}")
+                    elif factory is not None:
+                        body.append(f"self.{name} = ({factory})()")
+                if not ok:
+                    continue
+                if self.find_method(K, "__post_init__")[1] is not None:
+                    body.append(f"self.__post_init__({', '.join(initvars)})")
+                src = f"def __init__(self, {', '.join(params)}):\n" + "".join(f"    {b}\n" for b in body or ["pass"])
+                try:
+                    fn = ast.parse(src).body[0]
+                except SyntaxError:
+                    continue
+                line = K.node.lineno
+                for n in ast.walk(fn):
+                    if hasattr(n, "lineno"):
+                        n.lineno = n.end_lineno = line
+                        n.col_offset = getattr(n, "col_offset", 0)
+                K.methods["__init__"] = fn
+                fn._synthetic = True
+                self.fn_module[id(fn)] = m
+
     def _apply_class_hooks(self):
         """`__init_subclass__` hooks that wrap methods of every subclass (`cls.update = deco(cls.__dict__['update'])`,
         also via a local name or setattr with a constant name, under tests of whether the subclass defines the method):
@@ -237,6 +354,16 @@ class Program:
                     continue
                 me = hook.args.args[0].arg
                 wraps, poison = [], None
+                for n in ast.walk(hook):
+                    # a class-level container filled while subclasses are created (a registry): what it holds depends on
+                    # which classes exist -- reads of it are not followed
+                    if isinstance(n, ast.Call) and isinstance(n.func, ast.Attribute) and isinstance(n.func.value, ast.Attribute) \
+                            and isinstance(n.func.value.value, ast.Name) and \
+                            n.func.attr in ("append", "add", "update", "setdefault", "insert", "extend", "appendleft", "__setitem__"):
+                        self.registry_attrs.add(n.func.value.attr)
+                    if isinstance(n, ast.Subscript) and isinstance(n.ctx, (ast.Store, ast.Del)) and \
+                            isinstance(n.value, ast.Attribute) and isinstance(n.value.value, ast.Name):
+                        self.registry_attrs.add(n.value.attr)
                 for n in ast.walk(hook):
                     target = None
                     if isinstance(n, ast.Assign) and len(n.targets) == 1 and isinstance(n.targets[0], ast.Attribute) and \
@@ -664,9 +791,23 @@ def _gate_leaves(t):
     return _gate_leaves(t[2]) + _gate_leaves(t[3]) if isinstance(t, tuple) and t and t[0] == "gate" else [t]
 
 
+class _Missing:
+    def __repr__(self):
+        return "MISSING"
+
+
+MISSING = ("const", _Missing())     # "no argument given" in a synthesised dataclass constructor; nothing else is it
+
+
 def cmp_term(op, a, b):
     """Canonical comparison: a constant operand goes to the right; for symmetric operators the operands
     are ordered, so `1 <= x` is `x >= 1` and `a == b` is `b == a`."""
+    if op in ("is", "is not") and (a == MISSING or b == MISSING):
+        other = b if a == MISSING else a
+        if other == MISSING:
+            return ("const", op == "is")
+        if isinstance(other, tuple) and other and other[0] not in ("param", "default", "gate", "mu", "eta"):
+            return ("const", op == "is not")
     if op in ("is", "is not", "==", "!=") and isinstance(b, tuple) and len(b) == 2 and b[0] == "const" and \
             isinstance(b[1], bool) and _is_bool(a):
         # comparing a truth value with True / False
@@ -684,6 +825,8 @@ def cmp_term(op, a, b):
                 return ("const", eq if op == "==" else not eq)
             if x[0] == "enum" and y[0] == "const" and op in ("==", "!=") and x[4] == "enum" and y[1] is not None:
                 return ("const", op == "!=")        # a plain Enum member never equals a plain value
+    if a == b and op in ("==", "!=", "<", "<=", ">", ">=") and isinstance(a, tuple) and a and a[0] == "fn" and a[1] == "len":
+        return ("const", op in ("==", "<=", ">="))        # a length compared with itself
     if op in ("is", "is not") and b == ("const", None):
         isnone = _is_none(a)
         if isnone is not None:
@@ -755,14 +898,22 @@ def truth(c):
     """The condition `bool(c)` for a selection with a constant arm: `x if c else None` is true iff c and x."""
     if isinstance(c, tuple) and c and c[0] == "gate":
         ta, tb = const_truth(c[2]), const_truth(c[3])
+
+        def both(a, b):
+            return a if b == ("const", True) else b if b == ("const", False) else ("and", (a, b))
+
+        def either(a, b):
+            return a if b == ("const", False) else b if b == ("const", True) else ("or", (a, b))
         if tb is False:
-            return ("and", (c[1], truth(c[2])))
+            return both(c[1], truth(c[2]))
         if tb is True:
-            return ("or", (negate(c[1]), truth(c[2])))
+            return either(negate(c[1]), truth(c[2]))
         if ta is False:
-            return ("and", (negate(c[1]), truth(c[3])))
+            return both(negate(c[1]), truth(c[3]))
         if ta is True:
-            return ("or", (c[1], truth(c[3])))
+            return either(c[1], truth(c[3]))
+    if isinstance(c, tuple) and len(c) == 5 and c[0] == "enum" and const_truth(c) is not None:
+        return ("const", const_truth(c))
     return c
 
 
@@ -1054,6 +1205,13 @@ def norm_comp(c):
             if a[0] == "res" and b[0] == "res" and a[2] == ".keys" and b[2] == ".values" and a[3] == b[3] and len(a[3]) == 1:
                 c = ("comp", kind, lid, ("res", a[1], ".items", a[3], ())) + (key, val, conds)
                 continue
+            # zip(d, d.values()) / zip(d, list(d.values())) / zip(d.keys(), list(d.values())): the items of d
+            vals_of = b[3][0] if (b[0] == "new" and b[2] == "list" and len(b[3]) == 1) else b
+            keys_of = a[3][0] if (a[0] == "res" and a[2] == ".keys" and len(a[3]) == 1 and not a[4]) else a
+            if vals_of[0] == "res" and vals_of[2] == ".values" and len(vals_of[3]) == 1 and not vals_of[4] and \
+                    vals_of[3][0] == keys_of and keys_of[0] in ("res", "param", "field0"):
+                c = ("comp", kind, lid, ("res", vals_of[1], ".items", vals_of[3], ())) + (key, val, conds)
+                continue
         return c
     return c
 
@@ -1344,6 +1502,15 @@ class _Bind(ast.stmt):
         ast.copy_location(self, like)
 
 
+class _Alias(ast.stmt):
+    """Synthetic statement: `name` becomes a second name for what `other` denotes (an owned collaborator object)."""
+    _fields = ()
+
+    def __init__(self, name, other):
+        super().__init__()
+        self.name, self.other = name, other
+
+
 class _Term(ast.expr):
     """Synthetic expression: a value that has already been evaluated."""
     _fields = ()
@@ -1594,7 +1761,80 @@ class Summariser:
         cache[key] = True
         return True
 
+    def _init_only(self, root, attr):
+        """Is the attribute assigned in constructors only (nowhere else in the class hierarchy, no setattr / __dict__)?"""
+        key = (root.qual, attr)
+        cache = self.prog.init_only
+        if key not in cache:
+            ok = True
+            classes = list(self.prog.mro(root)) + [c for c in self.prog.subclasses(root) if c not in self.prog.mro(root)]
+            for k in classes:
+                for mname, m in k.methods.items():
+                    for n in ast.walk(m):
+                        if isinstance(n, ast.Attribute) and n.attr == attr and isinstance(n.ctx, (ast.Store, ast.Del)) and \
+                                mname != "__init__":
+                            ok = False
+                        if isinstance(n, ast.Call) and isinstance(n.func, ast.Name) and n.func.id in ("setattr", "delattr", "vars"):
+                            ok = False
+                        if isinstance(n, ast.Attribute) and n.attr == "__dict__":
+                            ok = False
+            cache[key] = ok
+        return cache[key]
+
+    def _ctor_callable(self, name):
+        """`self.<name>` when the constructor leaves a functools.partial there and nothing ever rebinds the attribute: the
+        partial itself, its arguments expressed over the object's state -- a constructor parameter is the attribute
+        that stores it (itself never rebound), an object built for the partial alone is the component `<name>.<i>`."""
+        if self.cls is None or self.field_prefix or "." in name or name.startswith("%"):
+            return None
+        root = self.prog.mro(self.cls)[0]
+        key = (root.qual, name)
+        cache = self.prog.ctor_callables
+        if key in cache:
+            return cache[key]
+        cache[key] = None
+        _, init = self.prog.find_method(root, "__init__")
+        if init is None or init in self.fnstack or self.fn.name == "__init__":
+            cache.pop(key)
+            return None
+        if not any(isinstance(n, ast.Attribute) and n.attr == name and isinstance(n.ctx, ast.Store)
+                   for k in self.prog.mro(root) if "__init__" in k.methods for n in ast.walk(k.methods["__init__"])):
+            return None
+        try:
+            fs = self.prog.summarise(root, "__init__").fields
+        except Unsupported:
+            return None
+        v = fs.get(name)
+        if not (v and v[0] == "partial") or not self._init_only(root, name):
+            return None
+        stored = {}
+        for f, t in fs.items():
+            if t[0] == "param" and "." not in f and self._init_only(root, f):
+                stored.setdefault(t, ("field0", f))
+
+        def translate(t, comp):
+            if t[0] == "const" or (t[0] == "global" and not t[1].startswith("?")):
+                return t
+            if t in stored:
+                return stored[t]
+            if t[0] == "field0" and "." not in t[1] and self._init_only(root, t[1]):
+                return t
+            if comp is not None and f"{name}.{comp}" in fs:
+                return ("field0", f"{name}.{comp}")
+            return None
+        args = tuple(translate(a, i) for i, a in enumerate(v[2]))
+        kws = tuple((k, translate(a, k)) for k, a in v[3])
+        fn = translate(v[1], None) if v[1][0] != "attr" else None
+        if fn is None or any(a is None for a in args) or any(a is None for _, a in kws):
+            return None
+        cache[key] = ("partial", fn, args, kws)
+        return cache[key]
+
     def field(self, name):
+        if name not in self.fields:
+            held = self._ctor_callable(name)
+            if held is not None:
+                return held
         if name not in self.fields and "." in name:
             twin = self._alias_of(name)
             if twin is not None:
@@ -1611,8 +1851,9 @@ class Summariser:
             if names and self.cls is not None and (self._root_key(), name) in self.prog.dict_records:
                 return ("dictrec", name, tuple(names))      # a reference to the dict of named slots, not a snapshot
             if names:
-                # a field that holds an immutable record is the display of its components
-                self.fields[name] = ("tuple", tuple(("field0", f"{name}.{n}") for n in names), ("names",) + tuple(names))
+                # a field that holds an immutable record is the display of its components (not noted as state of this
+                # path: reading it on one branch only must not make the branches differ)
+                return ("tuple", tuple(("field0", f"{name}.{n}") for n in names), ("names",) + tuple(names))
             else:
                 self.fields[name] = ("field0", name)
         return assume(self.fields[name], self.facts) if self.facts else self.fields[name]
@@ -1713,6 +1954,12 @@ class Summariser:
                     for i in v[3]:
                         s.fields[f"{k}.{i[1][1]}"] = i[2]
                     self.prog.dict_records[(root.qual, k)] = tuple(i[1][1] for i in v[3])
+        if self.fn.name == "__init__" and self.cls is not None and self.depth == 0 and not self.field_prefix:
+            for k, v in list(s.fields.items()):
+                if v[0] == "partial" and "." not in k:
+                    for i, a in list(enumerate(v[2])) + list(v[3]):
+                        if a[0] == "new":
+                            s.fields[f"{k}.{i}"] = a       # an object the partial alone holds: a component of the state
         for k, v in list(s.fields.items()):
             names = record_names(v)
             if names:
@@ -1803,7 +2050,7 @@ class Summariser:
                 # per item, followed by the rest of the block -- early returns are handled like any other
                 probe = []
                 it = self.expr(st.iter, probe)
-                items = self._display_items(it, isinstance(st.iter, ast.List)) if not probe else None
+                items = self._display_items(it, _plain_list(st.iter)) if not probe else None
                 if items is not None and len(items) <= 4:
                     stmts = []
                     for item in items:
@@ -1821,7 +2068,7 @@ class Summariser:
                 # break`): the items are tried in turn, each in the else branch of the one before
                 probe = []
                 it = self.expr(st.iter, probe)
-                items = self._display_items(it, isinstance(st.iter, ast.List)) if not probe else None
+                items = self._display_items(it, _plain_list(st.iter)) if not probe else None
                 if items is not None and 1 <= len(items) <= 4:
                     hit = st.body[-1]
                     chain = []
@@ -1859,6 +2106,10 @@ class Summariser:
                 self.loop_marks[-1][1].append((kind, tuple(self.facts[self.loop_marks[-1][0]:]),
                                                dict(self.env), dict(self.fields)))
                 return events, True, None
+            if isinstance(st, ast.With) and len(st.items) == 1 and self._with_object(st) is not None:
+                ev, term, ret = self.block(self._with_object(st) + list(rest))
+                events.extend(ev)
+                return events, term, ret
             if isinstance(st, ast.With):
                 done = self._with_contextmanager(st, events) if len(st.items) == 1 else None
                 if done is not None:
@@ -1908,13 +2159,21 @@ class Summariser:
         for k in set(a) | set(b):
             va = a.get(k, ("field0", k) if field else ("undef",))
             vb = b.get(k, ("field0", k) if field else ("undef",))
-            out[k] = gate(cond, va, vb)
+            if not field and va[0] == "owned" and vb == ("undef",):
+                out[k] = va             # a local collaborator created on one branch: elsewhere the name is not bound at all
+            elif not field and vb[0] == "owned" and va == ("undef",):
+                out[k] = vb
+            else:
+                out[k] = gate(cond, va, vb)
         return out
 
     # -- statements ------------------------------------------------------------------------------
     def stmt(self, st, events):
         if isinstance(st, _Bind):
             self.bind_target(st.target, st.term)
+            return
+        if isinstance(st, _Alias):
+            self.env[st.name] = self.env[st.other]      # a second name for the same object
             return
         if isinstance(st, ast.Expr):
             if isinstance(st.value, ast.Constant):
@@ -1926,6 +2185,9 @@ class Summariser:
                 self.on_yield(self, val, events, st)
                 return
             self.expr(st.value, events)
+        elif isinstance(st, ast.Assign) and self._comp_as_loop(st) is not None:
+            for s_ in self._comp_as_loop(st):
+                self.stmt(s_, events)
         elif isinstance(st, ast.Assign):
             val = self.expr(st.value, events)
             for t in st.targets:
@@ -1961,6 +2223,8 @@ class Summariser:
                     raise Unsupported(f"del {ast.unparse(t)} at {self.module.path}:{st.lineno}")
         elif isinstance(st, (ast.Import, ast.ImportFrom)):
             pass
+        elif isinstance(st, ast.Nonlocal):
+            pass            # only reached in closures whose cells are followed (closure())
         elif isinstance(st, ast.FunctionDef):
             self.env[st.name] = self.closure(st)
         elif isinstance(st, ast.ClassDef):
@@ -2027,6 +2291,22 @@ class Summariser:
                 self.fields[attr] = val
                 events.append(Store(attr, val, st.lineno, aug))
                 return
+            if aug is None and self._object_choice(cont):
+                # (A if c else B)[k] = v: the store goes to whichever object the condition picks
+                arms = []
+                for alt in (cont[2], cont[3]):
+                    a_ = ast.Assign(targets=[ast.Subscript(value=_Term(alt, target.value), slice=_Term(key, target.slice),
+                                                           ctx=ast.Store())], value=_Term(val, st), type_comment=None)
+                    arms.append(_located(a_, st))
+                ev, _, _ = self.block([_located(ast.If(test=_Term(cont[1], target.value), body=[arms[0]], orelse=[arms[1]]), st)])
+                events.extend(ev)
+                return
+            inst = self._stateless_instance(cont)
+            if inst is not None and aug is None:
+                c, m = self.prog.find_method(inst, "__setitem__")
+                if m is not None and self._can_inline_function(c.module, m):
+                    self.inline_function(c.module, m, f"{c.qual}.__setitem__", (cont, key, val), {}, events, st, level=0)
+                    return
             events.append(SubStore(cont, key, val, st.lineno, aug))
         elif isinstance(target, (ast.Tuple, ast.List)) and val[0] == "comp" and val[1] in ("gen", "list") and \
                 val[4] is None and not val[6] and val[5][0] != "flat" and val[3][0] == "fn" and val[3][1] == "range" and \
@@ -2036,6 +2316,19 @@ class Summariser:
             for i, el in enumerate(target.elts):
                 item = relabel_loop(subst(val[5], {("elem", val[2]): ("const", i)}), val[2], self.ids.next())
                 self.assign(el, item, events, st)
+        elif isinstance(target, (ast.Tuple, ast.List)) and sum(isinstance(e, ast.Starred) for e in target.elts) == 1 and \
+                val[0] == "tuple" and len(val[1]) >= len(target.elts) - 1 and \
+                not any(isinstance(x, tuple) and x and x[0] == "star" for x in val[1]):
+            # a, *rest, z = (display of known length): the starred name takes the middle as a list
+            k = next(i for i, e in enumerate(target.elts) if isinstance(e, ast.Starred))
+            tail = len(target.elts) - k - 1
+            items = val[1]
+            for el, v in zip(target.elts[:k], items[:k]):
+                self.assign(el, v, events, st)
+            mid = items[k:len(items) - tail]
+            self.assign(target.elts[k].value, ("new", self.site(target.elts[k]), "list", tuple(mid)), events, st)
+            for el, v in zip(target.elts[k + 1:], items[len(items) - tail:]):
+                self.assign(el, v, events, st)
         elif isinstance(target, (ast.Tuple, ast.List)):
             if val[0] == "tuple" and len(val[1]) == len(target.elts) and \
                     not any(isinstance(e, ast.Starred) for e in target.elts):
@@ -2054,6 +2347,57 @@ class Summariser:
         else:
             raise Unsupported(f"assign target {ast.unparse(target)} at {self.module.path}:{st.lineno}")
 
+    def _comp_as_loop(self, st):
+        """`T = {k: v for x in it}` / `T = [v for x in it]` whose element rebinds variables of the function (a walrus,
+        a call of a local function with `nonlocal` names) is the loop it abbreviates: the elements are computed in
+        order, each seeing what the previous ones left behind."""
+        got = getattr(st, "_as_loop", None)
+        if got is not None:
+            return got
+        v = st.value
+        if not (len(st.targets) == 1 and isinstance(st.targets[0], ast.Name) and
+                isinstance(v, (ast.DictComp, ast.ListComp)) and len(v.generators) == 1 and not v.generators[0].is_async):
+            return None
+        g = v.generators[0]
+        parts = [v.key, v.value] if isinstance(v, ast.DictComp) else [v.elt]
+
+        def effectful(e):
+            for n in ast.walk(e):
+                if isinstance(n, ast.NamedExpr):
+                    return True
+                if isinstance(n, ast.Call) and isinstance(n.func, ast.Name) and \
+                        self.env.get(n.func.id, ("?",))[0] == "closure" and self.env[n.func.id][1] in self.prog.closure_cells:
+                    return True
+            return False
+        if not effectful(parts[-1]) or any(effectful(x) for x in parts[:-1] + [g.iter] + list(g.ifs)):
+            return None
+        bound = {n.id for n in ast.walk(g.target) if isinstance(n, ast.Name)}
+        tname = st.targets[0].id
+        if bound & set(self.env) or tname in bound:
+            return None         # the comprehension's own variable would shadow a variable of the function
+        init = ast.Assign(targets=[ast.Name(id=tname, ctx=ast.Store())],
+                          value=ast.Dict(keys=[], values=[]) if isinstance(v, ast.DictComp) else ast.List(elts=[], ctx=ast.Load()),
+                          type_comment=None)
+        if isinstance(v, ast.DictComp):
+            put = ast.Assign(targets=[ast.Subscript(value=ast.Name(id=tname, ctx=ast.Load()), slice=v.key, ctx=ast.Store())],
+                             value=v.value, type_comment=None)
+        else:
+            put = ast.Expr(value=ast.Call(func=ast.Attribute(value=ast.Name(id=tname, ctx=ast.Load()), attr="append",
+                                                             ctx=ast.Load()), args=[v.elt], keywords=[]))
+        body = [put]
+        for c in reversed(g.ifs):
+            body = [ast.If(test=c, body=body, orelse=[])]
+        loop = ast.For(target=g.target, iter=g.iter, body=body, orelse=[], type_comment=None)
+        out = [init, loop]
+        for s_ in out:
+            ast.copy_location(s_, st)
+            ast.fix_missing_locations(s_)
+            for n in ast.walk(s_):
+                if getattr(n, "end_lineno", None) is None:
+                    n.end_lineno = getattr(st, "end_lineno", st.lineno)
+        st._as_loop = out
+        return out
+
     def assigned_names(self, body):
         names, fields = set(), set()
         for n in ast.walk(ast.Module(body=body, type_ignores=[])):
@@ -2064,6 +2408,13 @@ class Summariser:
                 fields |= self.consumer_state[1]
             if isinstance(n, ast.Name) and isinstance(n.ctx, ast.Store):
                 names.add(n.id)
+            elif isinstance(n, ast.Name) and self.env.get(n.id, ("?",))[0] == "closure" and \
+                    self.env[n.id][1] in self.prog.closure_cells:
+                cells, definer = self.prog.closure_cells[self.env[n.id][1]]     # rebinds these when it is called
+                if isinstance(definer, str):
+                    fields |= {f"{definer}.{c}" for c in cells}
+                else:
+                    names |= cells
             elif isinstance(n, ast.Attribute) and isinstance(n.ctx, ast.Store) and self.is_self(n.value):
                 fields.add(self.fname(n.attr))
             elif isinstance(n, ast.Attribute) and isinstance(n.ctx, ast.Store) and isinstance(n.value, ast.Attribute) and \
@@ -2123,8 +2474,51 @@ class Summariser:
                         fields |= sub.called_self_methods(m.body, seen)
         return fields
 
+    def _filled_by_position(self, st):
+        """`L = [c] * n` ... `for i in range(n): ...; L[i] = v`: every slot of the preallocated list is overwritten, in
+        order, once -- the loop `L = []` ... `L.append(v)`.  Returns the rewritten loop or None."""
+        if not (isinstance(st, ast.For) and not st.orelse and isinstance(st.target, ast.Name) and
+                isinstance(st.iter, ast.Call) and isinstance(st.iter.func, ast.Name) and st.iter.func.id == "range" and
+                "range" not in self.env and len(st.iter.args) == 1 and not st.iter.keywords):
+            return None
+        i = st.target.id
+        for pos, b in enumerate(st.body):
+            if not (isinstance(b, ast.Assign) and len(b.targets) == 1 and isinstance(b.targets[0], ast.Subscript) and
+                    isinstance(b.targets[0].value, ast.Name) and isinstance(b.targets[0].slice, ast.Name) and
+                    b.targets[0].slice.id == i):
+                continue
+            name = b.targets[0].value.id
+            cur = self.env.get(name)
+            if not (cur and cur[0] == "op" and cur[1] == "*"):
+                continue
+            disp, n = (cur[2], cur[3]) if cur[2][0] == "new" else (cur[3], cur[2])
+            if not (disp[0] == "new" and disp[2] == "list" and len(disp[3]) == 1 and disp[3][0][0] == "const"):
+                continue
+            if n != self._expr(st.iter.args[0], []):
+                continue
+            uses = [x for s_ in st.body for x in ast.walk(s_) if isinstance(x, ast.Name) and x.id == name]
+            rebinds = [x for s_ in st.body for x in ast.walk(s_) if isinstance(x, ast.Name) and x.id == i and
+                       isinstance(x.ctx, (ast.Store, ast.Del))]
+            jumps = [x for s_ in st.body for x in ast.walk(s_) if isinstance(x, (ast.Break, ast.Continue, ast.Return))]
+            if len(uses) != 1 or rebinds or jumps:
+                continue
+            put = ast.Expr(value=ast.Call(func=ast.Attribute(value=ast.Name(id=name, ctx=ast.Load()), attr="append", ctx=ast.Load()),
+                                          args=[b.value], keywords=[]))
+            body = list(st.body)
+            body[pos] = _located(put, b)
+            self.env[name] = ("new", disp[1], "list", ())
+            self.prog.list_literals.add(disp[1])
+            new = ast.For(target=st.target, iter=st.iter, body=body, orelse=[], type_comment=None)
+            ast.copy_location(new, st)
+            new.end_lineno = getattr(st, "end_lineno", st.lineno)
+            return new
+        return None
+
     def loop(self, st, events):
         is_while = isinstance(st, ast.While)
+        filled = self._filled_by_position(st)
+        if filled is not None:
+            return self.loop(filled, events)
         lid = self.ids.next()
         elem_val = ("elem", lid)
         if not is_while and isinstance(st.iter, ast.Call) and not st.orelse and self._generator_loop(st, events):
@@ -2251,6 +2645,9 @@ class Summariser:
             if _has_exit(ev):
                 raise Unsupported(f"return inside loop at {self.module.path}:{st.lineno}")
             end_env, end_fields = (None, None) if term else (self.env, self.fields)
+            for k, v in self.fields.items():
+                if k.startswith("%cell") and k not in fields and k in f0 and f0[k] != v:
+                    raise Unsupported(f"closure state changed indirectly inside the loop at {self.module.path}:{st.lineno}")
 
             def merged(getter, end):
                 v = end
@@ -2502,6 +2899,49 @@ class Summariser:
             return ("mu", fr["lid"], fr["prev"][base][0])   # the element appended by the previous iteration
         return None
 
+    def _with_object(self, st):
+        """`with _Manager(...) as v: body` for a private package class with __enter__ / __exit__: on the path where the
+        block ends normally this is `m = _Manager(...); v = m.__enter__(); body; m.__exit__(None, None, None)`.
+        (What __exit__ does with an exception is judged by the rules that care, from its definition.)"""
+        got = getattr(st, "_as_statements", None)
+        if got is not None:
+            return got
+        item = st.items[0]
+        call = item.context_expr
+        if not isinstance(call, ast.Call) or not isinstance(call.func, (ast.Name, ast.Attribute)):
+            return None
+        K = self.prog.resolve_class(self.module, call.func)
+        if K is None or not K.name.startswith("_") or K.record_fields is not None or self.prog.ext_bases(K):
+            return None
+        ce, enter = self.prog.find_method(K, "__enter__")
+        cx, exit_ = self.prog.find_method(K, "__exit__")
+        if enter is None or exit_ is None:
+            return None
+        if any(isinstance(n, (ast.Return, ast.Break, ast.Continue, ast.Yield, ast.YieldFrom)) for b in st.body for n in ast.walk(b)):
+            return None
+        if item.optional_vars is not None and not isinstance(item.optional_vars, ast.Name):
+            return None
+        mgr = f"with@{st.lineno}:{st.col_offset}"
+        out = [ast.Assign(targets=[ast.Name(id=mgr, ctx=ast.Store())], value=call, type_comment=None)]
+        rets = [n for n in _own_nodes(enter.body) if isinstance(n, ast.Return)]
+        me = enter.args.args[0].arg if enter.args.args else None
+        hands_out_itself = bool(rets) and all(isinstance(r.value, ast.Name) and r.value.id == me for r in rets)
+        entered = ast.Call(func=ast.Attribute(value=ast.Name(id=mgr, ctx=ast.Load()), attr="__enter__", ctx=ast.Load()),
+                           args=[], keywords=[])
+        if item.optional_vars is None or hands_out_itself:
+            out.append(ast.Expr(value=entered))
+            if item.optional_vars is not None:
+                out.append(_Alias(item.optional_vars.id, mgr))
+        else:
+            out.append(ast.Assign(targets=[item.optional_vars], value=entered, type_comment=None))
+        out.extend(st.body)
+        none = ast.Constant(value=None)
+        out.append(ast.Expr(value=ast.Call(func=ast.Attribute(value=ast.Name(id=mgr, ctx=ast.Load()), attr="__exit__", ctx=ast.Load()),
+                                           args=[none, none, none], keywords=[])))
+        out = [b if b in st.body else _located(b, st) for b in out]
+        st._as_statements = out
+        return out
+
     def _with_contextmanager(self, st, events):
         """`with cm(...) as v: body` for a package function decorated with contextlib.contextmanager that
         yields exactly once at the top level of its body (no try around the yield): the code before the
@@ -2557,9 +2997,86 @@ class Summariser:
         return self.run_generator(st.iter, events, consumer, carried=carried, cfields=cfields) is not None
 
     @staticmethod
-    def _display_items(it, literal_list=False):
+    def _holds_call(t):
+        """A callable with its arguments: a partial / closure / function, or a tuple display starting with one."""
+        def callable_(x):
+            return x[0] in ("partial", "closure") or (x[0] == "global" and not x[1].startswith("?")) or \
+                (x[0] == "attr" and isinstance(x[2], str))
+        return callable_(t) or (t[0] == "tuple" and len(t) == 2 and t[1] and callable_(t[1][0]))
+
+    def _queue_attribute(self, fld):
+        """Is the attribute behind the component `%object.attr` used by the collaborator's class only as a list that
+        is created empty, appended to and walked?"""
+        attr = fld.rsplit(".", 1)[1]
+        K = self.prog.owned.get((self._root_key(), fld.rsplit(".", 1)[0]))
+        if K is None:
+            return False
+        for k in self.prog.mro(K):
+            parents = {}
+            for n in ast.walk(k.node):
+                for ch in ast.iter_child_nodes(n):
+                    parents[ch] = n
+            for n in ast.walk(k.node):
+                if not (isinstance(n, ast.Attribute) and n.attr == attr):
+                    continue
+                p = parents.get(n)
+                q = parents.get(p)
+                if isinstance(n.ctx, ast.Store):
+                    if isinstance(p, (ast.Assign, ast.AnnAssign)) and isinstance(p.value, ast.List) and not p.value.elts:
+                        continue
+                    return False
+                if isinstance(p, ast.Attribute) and p.attr == "append" and isinstance(q, ast.Call) and q.func is p:
+                    continue
+                if isinstance(p, ast.For) and p.iter is n:
+                    continue
+                if isinstance(p, ast.Call) and isinstance(p.func, ast.Name) and p.func.id == "len":
+                    continue
+                if isinstance(p, (ast.If, ast.While)) and p.test is n:
+                    continue
+                return False
+        return True
+
+    def _queue_of_calls(self, name):
+        """Is the local `name` used in this function only as a list that is created by a display, appended to and
+        walked (`name = []`, `name.append(...)`, `for x in name`, `len(name)`, `if name`)?  Then no other name can
+        denote the list and appending can be followed as a change of the value of `name`."""
+        parents = {}
+        for n in ast.walk(self.fn):
+            for ch in ast.iter_child_nodes(n):
+                parents[ch] = n
+        for n in ast.walk(self.fn):
+            if not (isinstance(n, ast.Name) and n.id == name):
+                continue
+            p = parents.get(n)
+            q = parents.get(p)
+            inner = p
+            while inner is not None and inner is not self.fn:
+                if isinstance(inner, (ast.FunctionDef, ast.Lambda, ast.AsyncFunctionDef)):
+                    return False            # captured by a nested function
+                inner = parents.get(inner)
+            if isinstance(n.ctx, ast.Store):
+                if isinstance(p, (ast.Assign, ast.AnnAssign)) and isinstance(p.value, ast.List) and not p.value.elts:
+                    continue
+                return False
+            if isinstance(p, ast.Attribute) and p.attr == "append" and isinstance(q, ast.Call) and q.func is p:
+                continue
+            if isinstance(p, ast.For) and p.iter is n:
+                continue
+            if isinstance(p, ast.Call) and isinstance(p.func, ast.Name) and p.func.id == "len":
+                continue
+            if isinstance(p, (ast.If, ast.While)) and p.test is n:
+                continue
+            if isinstance(p, ast.UnaryOp) and isinstance(p.op, ast.Not):
+                continue
+            return False
+        return True
+
+    def _display_items(self, it, literal_list=False):
         if it[0] == "tuple":
             return it[1]
+        if it[0] == "new" and it[2] == "list" and it[1] in self.prog.queue_lists and \
+                not any(isinstance(x, tuple) and x and x[0] == "star" for x in it[3]):
+            return it[3]
         # ("new", site, "list", items) is both `[a, b]` and `list(a)`: only the literal in the loop header counts
         if literal_list and it[0] == "new" and it[2] == "list" and \
                 not any(isinstance(x, tuple) and x and x[0] == "star" for x in it[3]):
@@ -2572,7 +3089,7 @@ class Summariser:
         def ok(t):
             if t[0] == "gate":
                 return ok(t[2]) and ok(t[3])
-            items = self._display_items(t, isinstance(st.iter, ast.List))
+            items = self._display_items(t, _plain_list(st.iter))
             return items is not None and len(items) <= 4
         if not ok(it) or st.orelse:
             return False
@@ -2596,7 +3113,7 @@ class Summariser:
             self.env = self.merge(cond, env_t, self.env)
             self.fields = self.merge(cond, f_t, self.fields, field=True)
             return
-        for item in self._display_items(it, isinstance(st.iter, ast.List)):
+        for item in self._display_items(it, _plain_list(st.iter)):
             self.bind_target(st.target, item)
             ev, term, ret = self.block(st.body)
             if term:
@@ -2699,6 +3216,8 @@ class Summariser:
                 return assume(self.env[e.id], self.facts) if self.facts else self.env[e.id]
             if self.is_self(e):
                 return ("self",)
+            if e.id == "__dataclass_MISSING__":
+                return MISSING
             r = self.prog.resolve_name(self.module, e.id)
             if r and r[0] == "const":
                 m, node = r[1]
@@ -2719,6 +3238,9 @@ class Summariser:
                 return ("global", "builtins." + e.id)
             return ("global", "?" + e.id)
         if isinstance(e, ast.Attribute):
+            if e.attr in self.prog.registry_attrs:
+                raise Unsupported(f"{ast.unparse(e)[:60]} at {self.module.path}:{e.lineno} is filled while subclasses are being "
+                                  f"created (a registry); its contents are not followed")
             if isinstance(e.value, ast.Name) and e.value.id not in self.env:
                 K = None
                 if self.is_classmethod and e.value.id == self.self_name and (self.cm_cls or self.cls) is not None:
@@ -2825,10 +3347,20 @@ class Summariser:
                 if built is not None:
                     return built
                 return ("op", "%", ("const", e.left.value), right)
-            return ("op", BINOPS[type(e.op)], self._expr(e.left, events), self._expr(e.right, events))
+            left, right = self._expr(e.left, events), self._expr(e.right, events)
+            if isinstance(e.op, ast.Mult):
+                for disp, n, node in ((left, right, e.left), (right, left, e.right)):
+                    if isinstance(node, ast.List) and len(node.elts) == 1 and not isinstance(node.elts[0], ast.Starred) and \
+                            disp[0] == "new" and disp[2] == "list" and len(disp[3]) == 1 and \
+                            disp[3][0][0] not in ("const",):
+                        # [v] * n: the one value, n times -- the list `[v for _ in range(n)]`
+                        return ("comp", "list", self.ids.next(), ("fn", "range", (n,)), None, disp[3][0], ())
+            return ("op", BINOPS[type(e.op)], left, right)
         if isinstance(e, ast.UnaryOp):
             v = self._expr(e.operand, events)
             if isinstance(e.op, ast.Not):
+                if v[0] == "gate" and all(l[0] == "enum" for l in _gate_leaves(v)):
+                    v = truth(v)            # a selection between members: true exactly on the arms with true members
                 return negate(v)
             if isinstance(e.op, ast.USub):
                 if v[0] == "const" and isinstance(v[1], (int, float)) and not isinstance(v[1], bool):
@@ -2900,6 +3432,11 @@ class Summariser:
         if isinstance(e, (ast.Tuple, ast.List, ast.Set)):
             kind = {ast.Tuple: "tuple", ast.List: "list", ast.Set: "set"}[type(e)]
             items = tuple(self._expr(x, events) for x in e.elts)
+            if kind in ("list", "set") and len(items) == 1 and items[0][0] == "star" and items[0][1][0] == "comp" and \
+                    items[0][1][1] in ("gen", "list"):
+                return ("comp", kind) + items[0][1][2:]         # [*(f(x) for x in xs)] is the list comprehension
+            if kind in ("list", "set") and len(items) == 1 and items[0][0] == "star":
+                return ("new", self.site(e), kind, (items[0][1],))      # [*xs] is list(xs)
             if kind == "tuple":
                 return ("tuple", items)
             if kind == "list":
@@ -2951,9 +3488,12 @@ class Summariser:
     def comp(self, e, events):
         saved = dict(self.env)
         old_loops = self.loops
-        if len(e.generators) == 1 and isinstance(e.generators[0].iter, ast.Call) and not e.generators[0].ifs \
+        it0 = e.generators[0].iter
+        held = isinstance(it0, ast.Name) and self.env.get(it0.id, ("?",))[0] == "genobj" and \
+            self.env[it0.id][1] in self.prog.genobjs
+        if len(e.generators) == 1 and (isinstance(it0, ast.Call) or held) and not e.generators[0].ifs \
                 and not isinstance(e, ast.DictComp):
-            done = self._comp_over_generator(e, events)
+            done = self._comp_over_generator(e, events, self.prog.genobjs[self.env[it0.id][1]] if held else None)
             if done is not None:
                 self.loops = old_loops
                 self.env = saved
@@ -2963,7 +3503,7 @@ class Summariser:
         self.env = saved
         return result
 
-    def _comp_over_generator(self, e, events):
+    def _comp_over_generator(self, e, events, genobj=None):
         """[f(v) for v in gen(...)]: f(v) is evaluated at each yield of the generator; the result is the
         comprehension over the generator's loop (one yield inside one loop) or the display of the values."""
         g = e.generators[0]
@@ -2976,7 +3516,10 @@ class Summariser:
             got.append((v, tuple(gen.loops[len(self.loops_at_comp):]), gen))
             return ev
         self.loops_at_comp = self.loops
-        res = self.run_generator(g.iter, events, consumer)
+        if genobj is not None:
+            res = self.run_generator(genobj[0], events, consumer, params=dict(genobj[1]))
+        else:
+            res = self.run_generator(g.iter, events, consumer)
         if res is None:
             return None
         sub, inl = res
@@ -3054,7 +3597,69 @@ class Summariser:
         return norm_comp(("comp", kind, lid, it, key, val, conds))
 
     # -- calls -----------------------------------------------------------------------------------
+    def _reduce_as_loop(self, e, events):
+        """functools.reduce(f, it, init) is `acc = init; for x in it: acc = f(acc, x)`."""
+        if not (isinstance(e.func, (ast.Name, ast.Attribute)) and len(e.args) == 3 and not e.keywords and
+                not any(isinstance(a, ast.Starred) for a in e.args)):
+            return None
+        if self.prog.dotted_of(self.module, e.func) != "functools.reduce" or \
+                (isinstance(e.func, ast.Name) and e.func.id in self.env):
+            return None
+        acc, x = f"reduce@{e.lineno}:{e.col_offset}", f"item@{e.lineno}:{e.col_offset}"
+        init = ast.Assign(targets=[ast.Name(id=acc, ctx=ast.Store())], value=e.args[2], type_comment=None)
+        step = ast.Assign(targets=[ast.Name(id=acc, ctx=ast.Store())],
+                          value=ast.Call(func=e.args[0], args=[ast.Name(id=acc, ctx=ast.Load()), ast.Name(id=x, ctx=ast.Load())],
+                                         keywords=[]), type_comment=None)
+        loop = ast.For(target=ast.Name(id=x, ctx=ast.Store()), iter=e.args[1], body=[step], orelse=[], type_comment=None)
+        for s_ in (init, loop):
+            ast.copy_location(s_, e)
+            ast.fix_missing_locations(s_)
+            for n in ast.walk(s_):
+                if getattr(n, "end_lineno", None) is None:
+                    n.end_lineno = getattr(e, "end_lineno", e.lineno)
+            self.stmt(s_, events)
+        self.env.pop(x, None)
+        return self.env.pop(acc)
+
+    def _accumulate_as_loop(self, e, events):
+        """list(itertools.accumulate(it, f, initial=v)) is `acc = v; out = [v]; for x in it: acc = f(acc, x); out.append(acc)`."""
+        if not (isinstance(e.func, ast.Name) and e.func.id == "list" and "list" not in self.env and len(e.args) == 1 and
+                not e.keywords and isinstance(e.args[0], ast.Call) and isinstance(e.args[0].func, (ast.Name, ast.Attribute))):
+            return None
+        inner = e.args[0]
+        if self.prog.dotted_of(self.module, inner.func) != "itertools.accumulate" or \
+                (isinstance(inner.func, ast.Name) and inner.func.id in self.env):
+            return None
+        kw = {k.arg: k.value for k in inner.keywords}
+        if None in kw or set(kw) - {"func", "initial"} or "initial" not in kw or any(isinstance(a, ast.Starred) for a in inner.args):
+            return None
+        fn = inner.args[1] if len(inner.args) == 2 else kw.get("func")
+        if fn is None or len(inner.args) not in (1, 2) or (len(inner.args) == 2 and "func" in kw):
+            return None
+        tag = f"{e.lineno}:{e.col_offset}"
+        acc, x, out = f"acc@{tag}", f"item@{tag}", f"running@{tag}"
+        load = lambda n: ast.Name(id=n, ctx=ast.Load())
+        stmts = [
+            ast.Assign(targets=[ast.Name(id=acc, ctx=ast.Store())], value=kw["initial"], type_comment=None),
+            ast.Assign(targets=[ast.Name(id=out, ctx=ast.Store())], value=ast.List(elts=[load(acc)], ctx=ast.Load()), type_comment=None),
+            ast.For(target=ast.Name(id=x, ctx=ast.Store()), iter=inner.args[0], body=[
+                ast.Assign(targets=[ast.Name(id=acc, ctx=ast.Store())],
+                           value=ast.Call(func=fn, args=[load(acc), load(x)], keywords=[]), type_comment=None),
+                ast.Expr(value=ast.Call(func=ast.Attribute(value=load(out), attr="append", ctx=ast.Load()), args=[load(acc)],
+                                        keywords=[]))], orelse=[], type_comment=None)]
+        for s_ in stmts:
+            self.stmt(_located(s_, e), events)
+        self.env.pop(x, None)
+        self.env.pop(acc, None)
+        return self.env.pop(out)
+
     def call(self, e, events):
+        folded = self._reduce_as_loop(e, events)
+        if folded is not None:
+            return folded
+        folded = self._accumulate_as_loop(e, events)
+        if folded is not None:
+            return folded
         if isinstance(e.func, ast.Name) and e.func.id in ("getattr", "setattr") and e.func.id not in self.env and \
                 self.prog.resolve_name(self.module, e.func.id) is None and not e.keywords and \
                 len(e.args) == (2 if e.func.id == "getattr" else 3) and not any(isinstance(a, ast.Starred) for a in e.args):
@@ -3091,6 +3696,11 @@ class Summariser:
             if built is not None:
                 return built
         args = tuple(self._expr(a, events) for a in e.args)
+        if any(a[0] == "star" and a[1][0] == "tuple" and len(a[1]) == 2 for a in args):
+            flat = []
+            for a in args:          # f(*(x, y)) is f(x, y)
+                flat.extend(a[1][1] if (a[0] == "star" and a[1][0] == "tuple" and len(a[1]) == 2) else (a,))
+            args = tuple(flat)
         kwargs = []
         for k in e.keywords:
             v = self._expr(k.value, events)
@@ -3099,6 +3709,8 @@ class Summariser:
                 kwargs.extend((i[1][1], i[2]) for i in v[3])         # f(**{"a": x, "b": y}) is f(a=x, b=y)
             elif k.arg is None and v[0] == "new" and v[2] == "dict" and not v[3]:
                 pass                                                 # f(**{}) passes nothing
+            elif k.arg is None and v[0] == "constdict" and all(isinstance(kk[1], str) for kk, _ in v[1]):
+                kwargs.extend((kk[1], vv) for kk, vv in v[1])        # f(**OPTIONS) with a module-level table of options
             elif k.arg is None and v[0] == "new" and v[2] == "dict" and v[3] and \
                     all(isinstance(i, tuple) and len(i) == 3 and i[0] == "kw" and i[1] != "**" for i in v[3]):
                 kwargs.extend((i[1], i[2]) for i in v[3])            # f(**dict(a=x, b=y)) likewise
@@ -3151,7 +3763,20 @@ class Summariser:
                 events.append(Call("expr", None, held, args, kwargs, res, line))
                 return res
             fn_ = self.fname(f.attr)
+            if fn_ not in self.fields and f.attr not in self.prog.instance_attrs(self.cls) and not self.field_prefix and \
+                    any(f.attr in k.class_attrs for k in self.prog.mro(self.cls)):
+                # a class-level attribute naming a type (`_container_type = list`): types are not bound to the instance
+                held = self._expr(f, events)
+                if held[0] == "global" and (held[1] in ("builtins.list", "builtins.dict", "builtins.set") or
+                                            held[1] in ("collections.deque", "collections.OrderedDict", "collections.defaultdict")):
+                    val = self._call_value(held, args, kwargs, events, e)
+                    if val is not None:
+                        return val
             recv = self.field(fn_)
+            if recv[0] == "partial":
+                val = self._call_value(recv, args, kwargs, events, e)       # the partial the constructor left there
+                if val is not None:
+                    return val
             res = ("res", self.site(e), f"self.{fn_}", args, kwargs)
             events.append(Call(f"self.{fn_}", None, recv, args, kwargs, res, line))
             return res
@@ -3163,6 +3788,14 @@ class Summariser:
             held = self._expr(f.value, events)
             if held[0] == "global" and not held[1].startswith(("?", "builtins.")):
                 return self._dotted_call(held[1] + "." + f.attr, args, kwargs, events, e)
+            if held[0] == "constdict" and f.attr in ("items", "keys", "values", "get"):
+                node = ast.Call(func=ast.Attribute(value=_Term(held, f.value), attr=f.attr, ctx=ast.Load()),
+                                args=[_Term(a, e) for a in args], keywords=[])
+                ast.copy_location(node, e)
+                ast.copy_location(node.func, e)
+                node.end_lineno = node.func.end_lineno = getattr(e, "end_lineno", e.lineno)
+                if not kwargs:
+                    return self.call(node, events)
         # self.field.method(...)
         if isinstance(f, ast.Attribute) and isinstance(f.value, ast.Attribute) and self.is_self(f.value.value) \
                 and not self._is_property(f.value.attr):
@@ -3182,6 +3815,12 @@ class Summariser:
         if isinstance(f, ast.Name):
             if f.id in self.env:
                 recv = assume(self.env[f.id], self.facts) if self.facts else self.env[f.id]
+                if recv[0] == "owned":
+                    # a local collaborator object that is called: its __call__
+                    K = self._private_class(recv[3])
+                    c, m = self.prog.find_method(K, "__call__") if K is not None else (None, None)
+                    if m is not None:
+                        return self._inline_owned(K, recv[1][:-1], c, m, args, dict(kwargs), events, e)
                 bound = self._bound_method_call(recv, args, dict(kwargs), events, e)
                 if bound is not None:
                     return bound
@@ -3214,6 +3853,8 @@ class Summariser:
             elif r is None and f.id in PURE_BUILTINS:
                 if f.id == "bool" and len(args) == 1 and not kwargs and _is_bool(args[0]):
                     return args[0]
+                if f.id in ("int", "float", "str", "bool") and not args and not kwargs:
+                    return ("const", {"int": 0, "float": 0.0, "str": "", "bool": False}[f.id])
                 if f.id == "getattr" and len(args) in (2, 3) and not kwargs and args[0] == ("self",) and \
                         args[1][0] == "const" and isinstance(args[1][1], str) and self.cls is not None and \
                         self.prog.find_method(self.cls, args[1][1])[1] is None:
@@ -3251,6 +3892,11 @@ class Summariser:
             rc = self.prog.resolve_name(self.module, f.value.id)
             if rc and rc[0] == "class":
                 c, m = self.prog.find_method(rc[1], f.attr)
+                if m is not None and not any(ast.unparse(d) in ("staticmethod", "classmethod", "property")
+                                             for d in m.decorator_list) and args and args[0] == ("self",) and \
+                        self.cls is not None and rc[1] in self.prog.mro(self.cls) and not self.field_prefix:
+                    # Base.method(self, ...): the definition the base class sees, run on this very object
+                    return self.inline(c, m, args[1:], dict(kwargs), events, e)
                 if m is not None and any(ast.unparse(d) in ("staticmethod", "classmethod") for d in m.decorator_list):
                     if self.cls is not None and rc[1] not in self.prog.mro(self.cls):
                         return self.inline(c, m, args, dict(kwargs), events, e, cm_cls=rc[1])
@@ -3284,6 +3930,9 @@ class Summariser:
         # method on a local object / arbitrary expression
         if isinstance(f, ast.Attribute):
             recv = self._expr(f.value, events)
+            if recv[0] == "global" and recv[1] in ("random", "numpy.random", "numpy", "math", "copy", "operator", "itertools",
+                                                   "functools", "collections"):
+                return self._dotted_call(f"{recv[1]}.{f.attr}", args, kwargs, events, e)     # a local name for a module
             got = self._record_method(recv, f.attr, args, kwargs, events, e)
             if got is not None:
                 return got
@@ -3293,6 +3942,35 @@ class Summariser:
             got = self.enum_method(recv, f.attr, args, kwargs, events, e)
             if got is not None:
                 return got
+            if self._object_choice(recv) and not isinstance(f.value, _Term):
+                # (A if c else B).method(...): the call goes to whichever object the condition picks
+                tmp = f"call@{e.lineno}:{e.col_offset}:{len(self.stack)}"
+                arms = []
+                for alt in (recv[2], recv[3]):
+                    call_ = ast.Call(func=ast.Attribute(value=_Term(alt, f.value), attr=f.attr, ctx=ast.Load()),
+                                     args=[_Term(a, e) for a in args],
+                                     keywords=[ast.keyword(arg=(None if k == "**" else k), value=_Term(v, e)) for k, v in kwargs])
+                    arms.append(_located(ast.Assign(targets=[ast.Name(id=tmp, ctx=ast.Store())], value=call_, type_comment=None), e))
+                ev, _, _ = self.block([_located(ast.If(test=_Term(recv[1], f.value), body=[arms[0]], orelse=[arms[1]]), e)])
+                events.extend(ev)
+                return self.env.pop(tmp)
+            inst = self._stateless_instance(recv)
+            if inst is not None:
+                c, m = self.prog.find_method(inst, f.attr)
+                if m is not None and not any(ast.unparse(d) in ("staticmethod", "classmethod", "property") for d in m.decorator_list) \
+                        and self._can_inline_function(c.module, m):
+                    return self.inline_function(c.module, m, f"{c.qual}.{f.attr}", (recv,) + tuple(args), dict(kwargs),
+                                                events, e, level=0)
+            if recv[0] == "constdict" and not kwargs:
+                if f.attr == "items" and not args:
+                    return ("tuple", tuple(("tuple", (k, v)) for k, v in recv[1]))
+                if f.attr == "keys" and not args:
+                    return ("tuple", tuple(k for k, _ in recv[1]))
+                if f.attr == "values" and not args:
+                    return ("tuple", tuple(v for _, v in recv[1]))
+                if f.attr == "get" and len(args) in (1, 2) and args[0][0] == "const":
+                    hit = [v for k, v in recv[1] if k == args[0]]
+                    return hit[0] if hit else (args[1] if len(args) == 2 else ("const", None))
             if f.attr in SET_ALGEBRA and len(args) == 1 and not kwargs:
                 return ("op", SET_ALGEBRA[f.attr], recv, args[0])
             if f.attr == "__getitem__" and len(args) == 1 and not kwargs:
@@ -3312,11 +3990,25 @@ class Summariser:
                     self.fields.get(recv[1], recv) == recv and \
                     (self._root_key(), recv[1].split(".")[0]) in self.prog.dict_records:
                 return self._field_method_call(recv[1], f.attr, args, kwargs, events, e)    # a named slot of a dict of slots
+            if recv[0] == "field0" and self.cls is not None and recv[1].count(".") == 1 and not self.field_prefix and \
+                    self.fields.get(recv[1], recv) == recv and \
+                    recv[1].split(".")[1] in (self._record_names(recv[1].split(".")[0]) or ()):
+                return self._field_method_call(recv[1], f.attr, args, kwargs, events, e)    # a component of a record field
             if recv[0] == "field0" and self.cls is not None and "." not in recv[1] and not self.field_prefix and \
                     self.fields.get(recv[1], recv) == recv and self._owned_class(recv[1]) is None and \
                     not self._is_property(recv[1]):
                 # a method of the object held in a field, reached through an expression that evaluates to it
                 return self._field_method_call(recv[1], f.attr, args, kwargs, events, e)
+            if f.attr == "append" and len(args) == 1 and not kwargs and isinstance(f.value, ast.Name) and \
+                    recv[0] == "new" and recv[2] == "list" and recv[1] in self.prog.list_literals and not self.loops and \
+                    self.env.get(f.value.id) == recv and args[0][0] in ("partial", "closure") and \
+                    not any(isinstance(x, tuple) and x and x[0] == "star" for x in recv[3]) and \
+                    self._queue_of_calls(f.value.id):
+                # a local list of pending calls (`todo.append(partial(...))` ... `for call in todo: call()`): the list
+                # is the display of what has been appended so far
+                self.env[f.value.id] = ("new", recv[1], "list", recv[3] + (args[0],))
+                self.prog.queue_lists.add(recv[1])
+                return ("const", None)
             res = ("res", self.site(e), "." + f.attr, (recv,) + args, kwargs)
             if f.attr in MUTATORS:
                 events.append(Mut(recv, f.attr, args, kwargs, res, line))
@@ -3639,9 +4331,21 @@ class Summariser:
         if node.args.kwarg:
             own.add(node.args.kwarg.arg)
         loaded = set()
+        # `nonlocal` names of the enclosing function: the closure reads and rebinds the enclosing function's own
+        # variables; followed when it is called by the function that defines it (see inline_closure)
+        cells = set()
+        for n in node.body if isinstance(node.body, list) else ():
+            if isinstance(n, ast.Nonlocal):
+                cells |= set(n.names)
+        if cells and (not all(c in self.env for c in cells) or cells & own):
+            return opaque
         for n in ast.walk(node):
+            if isinstance(n, ast.Nonlocal) and n in node.body:
+                continue
             if isinstance(n, (ast.Nonlocal, ast.Global, ast.Yield, ast.YieldFrom, ast.Await)):
                 return opaque
+            if isinstance(n, ast.Name) and n.id in cells:
+                continue
             if isinstance(n, ast.Name):
                 if isinstance(n.ctx, ast.Store):
                     own.add(n.id)
@@ -3657,6 +4361,8 @@ class Summariser:
                 return opaque
         self.prog.closures[site] = (node, self.module, self.cls, self.owner, dict(self.env), self.self_name,
                                     self.is_static, self.is_classmethod)
+        if cells:
+            self.prog.closure_cells[site] = (frozenset(cells), self)
         return ("closure", site)
 
     def inline_closure(self, recv, args, kwargs, events, call_node):
@@ -3685,12 +4391,17 @@ class Summariser:
             params["**"] = ("new", self.site(call_node), "dict", tuple(("kv", ("const", n), v) for n, v in extra_kw))
         if a.vararg and "*" not in params and not any(isinstance(x, tuple) and x and x[0] == "star" for x in args):
             params["*"] = ("tuple", ())
+        def default(d):
+            # defaults are evaluated where the function is defined: a plain name is the variable's value there
+            if isinstance(d, ast.Name) and d.id in env:
+                return env[d.id]
+            return self._expr_const(d, _defaults_of)
         for n, dflt in zip(names[len(names) - len(a.defaults):], a.defaults):
             if n not in params:
-                params[n] = self._expr_const(dflt, _defaults_of)
+                params[n] = default(dflt)
         for kw, dflt in zip(a.kwonlyargs, a.kw_defaults):
             if kw.arg not in params and dflt is not None:
-                params[kw.arg] = self._expr_const(dflt, _defaults_of)
+                params[kw.arg] = default(dflt)
         sub = Summariser(self.prog, module, None, node, params=params, fields=self.fields, depth=self.depth + 1,
                          ids=self.ids, stack=self.stack + (f"{call_node.lineno}:{call_node.col_offset}",),
                          loops=self.loops, owner=owner, fnstack=self.fnstack)
@@ -3701,13 +4412,51 @@ class Summariser:
         own_env = sub.env
         sub.env = dict(env)
         sub.env.update(own_env)
+        cells, definer = self.prog.closure_cells.get(recv[1], (frozenset(), None))
+        escaped = definer if isinstance(definer, str) else None
+        if cells and escaped:
+            # the defining function has returned: its variables live on only for this closure (see _retire)
+            if not all(f"{escaped}.{c}" in self.fields for c in cells):
+                raise Unsupported(f"state of closure {node.name} is not known at {self.module.path}:{call_node.lineno}")
+            for c in cells:
+                sub.env[c] = self.fields[f"{escaped}.{c}"]
+        elif cells:
+            if definer is not self or not all(c in self.env for c in cells):
+                raise Unsupported(f"closure {node.name} rebinding variables of its defining function is called from "
+                                  f"elsewhere at {self.module.path}:{call_node.lineno}")
+            for c in cells:
+                sub.env[c] = self.env[c]
         sub.facts = list(self.facts)
         sub.base_facts = len(sub.facts)
         ev, term, ret = sub.block(node.body)
+        if cells:
+            if any(facts for facts, _ in sub.exits) or len(sub.exits) > 1 or (term and ret is None):
+                raise Unsupported(f"closure {node.name} rebinding variables of its defining function has several exits "
+                                  f"at {self.module.path}:{node.lineno}")
         self.fields = sub.exit_fields(term)
+        for c in cells:
+            if escaped:
+                self.fields[f"{escaped}.{c}"] = sub.env[c]
+            else:
+                self.env[c] = sub.env[c]
+        self._retire(sub)
         rv = ret if ret is not None else ("const", None)
         events.append(Inlined(f"<closure {node.name}>", ev, call_node.lineno, None, node, dict(params), rv))
         return rv
+
+    def _retire(self, sub):
+        """An inlined function has returned: the variables its closures rebind (`nonlocal`) now belong to those
+        closures alone.  They are kept as hidden state `%cellN.<name>`, threaded like the fields of the object."""
+        for site, (cells, definer) in list(self.prog.closure_cells.items()):
+            if definer is not sub:
+                continue
+            if any(facts for facts, _ in sub.exits) or not all(c in sub.env for c in cells):
+                self.prog.closure_cells[site] = (cells, None)       # left on several paths: not followed
+                continue
+            key = "%cell" + str(self.prog.cell_ids.setdefault(site, len(self.prog.cell_ids)))
+            for c in cells:
+                self.fields[f"{key}.{c}"] = sub.env[c]
+            self.prog.closure_cells[site] = (cells, key)
 
     def _record_method(self, recv, meth, args, kwargs, events, e):
         """Method of an immutable record class called on a record display: inlined with `self` bound to the display."""
@@ -3742,6 +4491,15 @@ class Summariser:
                 all(k in recv[2][1:] for k, _ in kwargs):
             new = dict(kwargs)
             return ("tuple", tuple(new.get(n, v) for n, v in zip(recv[2][1:], recv[1])), recv[2])
+        if fld.startswith("%") and recv[0] == "new" and recv[2] == "list" and recv[1] in self.prog.list_literals and \
+                meth == "append" and len(args) == 1 and not kwargs and not self.loops and \
+                not any(isinstance(x, tuple) and x and x[0] == "star" for x in recv[3]) and \
+                self._holds_call(args[0]) and self._queue_attribute(fld):
+            # the list of pending calls of a local collaborator (`self._todo.append((action, args))` ... `for action,
+            # args in self._todo: action(*args)`): the list is the display of what has been appended so far
+            self.fields[fld] = ("new", recv[1], "list", recv[3] + (args[0],))
+            self.prog.queue_lists.add(recv[1])
+            return ("const", None)
         if fld.startswith("%") and recv[0] != "field0":
             # a container held by a local collaborator object: the call is a call on that very object
             res = ("res", self.site(e), "." + meth, (recv,) + tuple(args), kwargs)
@@ -3885,6 +4643,34 @@ class Summariser:
             return gate(cond, a, b)
         return None
 
+    def _object_choice(self, t):
+        """t selects, by a truth value, between two objects at least one of which is a stateless module-level
+        instance of a package class (a null object standing in for a container, a strategy singleton)."""
+        if t[0] != "gate":
+            return False
+
+        def leaves(x):
+            return leaves(x[2]) + leaves(x[3]) if x[0] == "gate" else [x]
+        return any(self._stateless_instance(x) is not None for x in leaves(t))
+
+    def _stateless_instance(self, t):
+        """The class of a module-level `NAME = _Class()` instance without state (no constructor, no attribute of the
+        instance is ever assigned), else None.  Its methods are inlined like plain functions."""
+        if not (t[0] == "global" and "." in t[1]):
+            return None
+        r = self.prog.resolve_dotted(t[1])
+        if not (r and r[0] == "const"):
+            return None
+        m, node = r[1]
+        if not (isinstance(node, ast.Call) and not node.args and not node.keywords):
+            return None
+        K = self.prog.resolve_class(m, node.func)
+        if K is None or K.record_fields is not None or K.enum_members is not None or self.prog.ext_bases(K) or \
+                self.prog.find_method(K, "__init__")[1] is not None or self.prog.instance_attrs(K) or \
+                K.qual in self.prog.class_hooks:
+            return None
+        return K
+
     def _private_class(self, val):
         """The private package class (not an immutable record) a `new` term instantiates, else None."""
         if not (val[0] == "new" and isinstance(val[2], str) and "." in val[2]):
@@ -3946,11 +4732,24 @@ class Summariser:
     def _call_value(self, recv, args, kwargs, events, e):
         """Call of a local that holds a library function / package class / package function, or a
         conditional choice between such (`cls = A if c else B; cls(...)`)."""
+        if recv[0] == "global" and recv[1].rsplit(".", 1)[0] in ("builtins.list", "builtins.dict", "builtins.set",
+                                                                   "collections.deque") and args and \
+                args[0][0] != "star" and recv[1].rsplit(".", 1)[1].isidentifier() and not recv[1].endswith("__"):
+            # list.append(L, x): the method of the type, called on L
+            node = ast.Call(func=ast.Attribute(value=_Term(args[0], e), attr=recv[1].rsplit(".", 1)[1], ctx=ast.Load()),
+                            args=[_Term(a, e) for a in args[1:]],
+                            keywords=[ast.keyword(arg=(None if k == "**" else k), value=_Term(v, e)) for k, v in kwargs])
+            return self.call(_located(node, e), events)
         if recv[0] == "global" and not recv[1].startswith(("?", "builtins.")):
             return self._dotted_call(recv[1], args, kwargs, events, e)
         if recv[0] == "global" and recv[1].startswith("builtins.") and recv[1][9:] in PURE_BUILTINS and \
                 recv[1][9:] not in ("getattr", "zip", "next", "iter", "len", "bool"):
             return ("fn", recv[1][9:], tuple(args) + tuple(("kw",) + kv for kv in kwargs))    # a builtin held in a table
+        if recv[0] == "global" and recv[1].startswith("builtins.") and recv[1][9:] in FRESH_BUILTINS and \
+                not any(a[0] in ("genobj", "star") for a in args):
+            if recv[1][9:] in ("list", "set") and len(args) == 1 and not kwargs and args[0][0] == "comp" and args[0][1] == "gen":
+                return ("comp", recv[1][9:]) + args[0][2:]
+            return ("new", self.site(e), recv[1][9:], tuple(args) + tuple(("kw",) + kv for kv in kwargs))  # a held container type
         if recv[0] == "closure" and recv[1] in self.prog.closures:
             return self.inline_closure(recv, args, kwargs, events, e)
         if recv[0] == "funcref" and recv[1] in self.prog.funcrefs:
@@ -3983,6 +4782,13 @@ class Summariser:
         if recv[0] == "attr" and isinstance(recv[2], str) and recv[2].isidentifier() and not recv[2].startswith("__"):
             # a bound method kept in a variable (`write = self._xs.append; write(x)`): the method call itself
             obj, meth = recv[1], recv[2]
+            if obj[0] == "global" and obj[1] in ("builtins.list", "builtins.dict", "builtins.set", "collections.deque") and \
+                    args and args[0][0] != "star":
+                # list.append(L, x): the method of the type, called on L
+                node = ast.Call(func=ast.Attribute(value=_Term(args[0], e), attr=meth, ctx=ast.Load()),
+                                args=[_Term(a, e) for a in args[1:]],
+                                keywords=[ast.keyword(arg=(None if k == "**" else k), value=_Term(v, e)) for k, v in kwargs])
+                return self.call(_located(node, e), events)
             got = self._record_method(obj, meth, args, kwargs, events, e)
             if got is not None:
                 return got
@@ -4182,6 +4988,20 @@ class Summariser:
         m = method_of(recv)
         if m is not None and m[1] is not None:
             return self.inline(m[0], m[1], args, kwargs, events, node)
+        if self.field_prefix and recv[0] == "global" and isinstance(self._root_key(), str) and not self._root_key().startswith("<"):
+            # a bound method of the owning object, called back from inside its collaborator
+            try:
+                root = self.prog.cls(self._root_key())
+            except Unsupported:
+                return None
+            saved = (self.cls, self.field_prefix, getattr(self, "_owner_key", None))
+            self.cls, self.field_prefix = root, ""
+            try:
+                m = method_of(recv)
+                if m is not None and m[1] is not None:
+                    return self.inline(m[0], m[1], args, kwargs, events, node)
+            finally:
+                self.cls, self.field_prefix, self._owner_key = saved
         return None
 
     def _is_property(self, name):
@@ -4249,6 +5069,31 @@ class Summariser:
     def enum_member(self, K, name):
         node = K.enum_members[name]
         val = self._const_term(K.module, node)
+        if isinstance(node, ast.Call) and ast.unparse(node.func) in ("auto", "enum.auto") and not node.args and \
+                not self.prog.find_method(K, "_generate_next_value_")[1]:
+            # enum.auto(): the next value after the members written before it
+            last, ok = None, True
+            for n2, node2 in K.enum_members.items():
+                if isinstance(node2, ast.Call) and ast.unparse(node2.func) in ("auto", "enum.auto"):
+                    if K.enum_kind == "str":
+                        cur = n2.lower()
+                    elif K.enum_kind == "flag":
+                        cur = 1 if not last else 1 << int(last).bit_length()
+                    else:
+                        cur = 1 if last is None else last + 1
+                else:
+                    v2 = self._const_term(K.module, node2)
+                    if v2 is None or v2[0] != "const" or (K.enum_kind != "str" and not isinstance(v2[1], int)):
+                        ok = False
+                        break
+                    cur = v2[1]
+                if K.enum_kind == "flag" and isinstance(cur, int) and last is not None:
+                    last = max(last, cur)
+                else:
+                    last = cur
+                if n2 == name:
+                    break
+            val = ("const", cur) if ok else None
         if val is not None and val[0] == "tuple":
             val = None
         return ("enum", K.qual, name, val if (val is not None and val[0] == "const") else None, K.enum_kind)
@@ -4279,7 +5124,10 @@ class Summariser:
         if miss is not None:
             tail = self.inline(c, miss, (arg,), {}, events, e, cm_cls=K)
         else:
-            tail = ("undef",)           # ValueError: not a member
+            tail = RAISES               # ValueError: not a member
+            none = tuple(negate(cmp_term("==", arg, m_[3])) for m_ in members)
+            events.append(If(none[0] if len(none) == 1 else ("and", none),
+                             [Raise(("new", self.site(e), "exc:ValueError", (arg,)), e.lineno)], [], e.lineno, False))
         out = tail
         for m_ in reversed(members):
             out = gate(cmp_term("==", arg, m_[3]), m_, out)
@@ -4302,7 +5150,10 @@ class Summariser:
             if "classmethod" in decos:
                 return self.inline(c, m, tuple(args), dict(kwargs), events, e, cm_cls=K)
             return self.inline_function(c.module, m, f"{c.qual}.{meth}", (recv,) + tuple(args), dict(kwargs), events, e, level=0)
-        if recv[0] == "gate" and all(l[0] == "enum" for l in _gate_leaves(recv)):
+        if recv == RAISES:
+            return recv             # no member: the lookup has raised on this arm
+        if recv[0] == "gate" and all(l[0] == "enum" or l == RAISES for l in _gate_leaves(recv)) and \
+                any(l[0] == "enum" for l in _gate_leaves(recv)):
             cond = recv[1]
             env0, f0 = dict(self.env), dict(self.fields)
             ev_t, ev_e = [], []
@@ -4405,6 +5256,7 @@ class Summariser:
                 raise Unsupported(f"generator {m.name} inlined at {self.module.path}:{node.lineno}")
         ev, term, ret = sub.block(m.body)
         self.fields = sub.exit_fields(term)
+        self._retire(sub)
         rv = memo_value(m, ret if ret is not None else ("const", None))
         events.append(Inlined(f"{c.name}.{m.name}", ev, node.lineno, c, m, dict(params), rv))
         return rv
@@ -4455,6 +5307,7 @@ class Summariser:
         sub.base_facts = len(sub.facts)
         ev, term, ret = sub.block(node.body)
         self.fields = sub.exit_fields(term)
+        self._retire(sub)
         rv = memo_value(node, ret if ret is not None else ("const", None))
         events.append(Inlined(q, ev, call_node.lineno, None, node, dict(params), rv))
         return rv
@@ -4462,7 +5315,7 @@ class Summariser:
     def _const_term(self, m, node, depth=0):
         """Value of a module-level constant expression built from literals, immutable records, functions /
         classes and operator helpers (lookup tables, sentinels); None if it is anything else."""
-        if depth > 4:
+        if depth > 8:
             return None
         if isinstance(node, ast.Constant):
             return ("const", node.value)
@@ -4487,14 +5340,34 @@ class Summariser:
                 return ("global", r[1])
             return None
         if isinstance(node, ast.Attribute):
+            if isinstance(node.value, ast.Name):
+                r = self.prog.resolve_name(m, node.value.id)
+                if r and r[0] == "class":
+                    # Class.ATTR: a constant of the class body, unless something assigns the attribute elsewhere
+                    for k in self.prog.mro(r[1]):
+                        if node.attr in k.class_attrs:
+                            if node.attr in self.prog.instance_attrs(r[1]):
+                                return None
+                            return self._const_term(k.module, k.class_attrs[node.attr], depth + 1)
             d = self.prog.dotted_of(m, node)
             return ("global", d) if d is not None else None
-        if isinstance(node, ast.Dict) and all(k is not None for k in node.keys):
-            keys = [self._const_term(m, k, depth + 1) for k in node.keys]
-            vals = [self._const_term(m, v, depth + 1) for v in node.values]
-            if all(k is not None and k[0] == "const" for k in keys) and all(v is not None for v in vals):
-                return ("constdict", tuple(zip(keys, vals)))
-            return None
+        if isinstance(node, ast.Dict):
+            entries = []
+            for k, v in zip(node.keys, node.values):
+                vt = self._const_term(m, v, depth + 1)
+                if k is None:
+                    if vt is None or vt[0] != "constdict":
+                        return None
+                    entries.extend(vt[1])               # {**OTHER_TABLE, ...}
+                    continue
+                kt = self._const_term(m, k, depth + 1)
+                if kt is None or kt[0] != "const" or vt is None:
+                    return None
+                entries.append((kt, vt))
+            merged = {}
+            for kt, vt in entries:
+                merged[kt] = vt                          # a later entry replaces an earlier one with the same key
+            return ("constdict", tuple(merged.items()))
         if isinstance(node, ast.Call) and not any(isinstance(a, ast.Starred) for a in node.args) and \
                 all(k.arg is not None for k in node.keywords):
             args = [self._const_term(m, a, depth + 1) for a in node.args]
@@ -4509,6 +5382,8 @@ class Summariser:
             if d is None and isinstance(node.func, ast.Name):
                 r = self.prog.resolve_name(m, node.func.id)
                 d = r[1] if r and r[0] == "ext" else None
+            if d == "types.MappingProxyType" and len(args) == 1 and not kw and args[0][0] == "constdict":
+                return args[0]                  # a read-only view of a table is the table
             if d in ("operator.attrgetter", "operator.itemgetter", "operator.methodcaller", "functools.partial"):
                 ev = []
                 v = self._dotted_call(d, tuple(args), tuple(kw), ev, node)
@@ -4518,6 +5393,8 @@ class Summariser:
     def _expr_const(self, e, owner_fn=None):
         if isinstance(e, ast.Constant):
             return ("const", e.value)
+        if isinstance(e, ast.Name) and e.id == "__dataclass_MISSING__":
+            return MISSING
         if isinstance(e, ast.UnaryOp) and isinstance(e.op, ast.USub) and isinstance(e.operand, ast.Constant):
             return ("const", -e.operand.value)
         # a default written as a module-level constant (`mode=_DEFAULT_MODE`) is its value
@@ -4527,6 +5404,21 @@ class Summariser:
             if v is not None and v[0] == "const":
                 return v
         return ("default", ast.unparse(e))
+
+
+def _plain_list(node):
+    """A list display written out item by item (no `*xs` inside)."""
+    return isinstance(node, ast.List) and not any(isinstance(x, ast.Starred) for x in node.elts)
+
+
+def _located(node, at):
+    ast.copy_location(node, at)
+    ast.fix_missing_locations(node)
+    end = getattr(at, "end_lineno", None) or at.lineno
+    for n in ast.walk(node):
+        if hasattr(n, "lineno") and getattr(n, "end_lineno", None) is None:
+            n.end_lineno = end
+    return node
 
 
 def _arm_exits(stmts):
